@@ -243,8 +243,10 @@ class Stream:
 def gen_plan_rm(rng, cls, n_ops):
     _LAST[0] = None
     dim = int(rng.integers(2, 4)) if cls == "IncomprRandMeth" else int(rng.integers(1, 4))
-    sampling = "auto" if rng.random() < 0.85 else "mcmc"
-    spec = rand_spec(rng, dim)
+    r_ = rng.random()
+    sampling = "auto" if r_ < 0.7 else ("mcmc" if r_ < 0.85 else "inversion")
+    ppf_only = sampling == "inversion"      # inversion sampling: classes with an analytic radial cdf (3-D: pdf + cdf, no ppf)
+    spec = rand_spec(rng, dim, cls=str(rng.choice(CLS_PPF)) if ppf_only else None)
     init = dict(cls=cls, spec=spec, mode_no=int(rng.choice([4, 9, 16])), seed=rand_seed(rng), sampling=sampling)
     ops = []
     for _ in range(n_ops):
@@ -258,7 +260,7 @@ def gen_plan_rm(rng, cls, n_ops):
             ops.append(["restore"])
         elif r < 0.68:
             d2 = dim if (cls == "IncomprRandMeth" or rng.random() < 0.5) else int(rng.integers(1, 4))
-            ops.append(["setmodel", rand_spec(rng, d2)])
+            ops.append(["setmodel", rand_spec(rng, d2, cls=str(rng.choice(CLS_PPF)) if ppf_only else None)])
         elif r < 0.76:
             ops.append(["gen.seed", rand_seed(rng)])
         elif r < 0.82:
@@ -1268,7 +1270,8 @@ def probe_positions(ctx, gs, rng, reps):
 
 
 def _hist_positions(rng, family, fdim, structured, stored=None):
-    """positions for the general history probe: (pos tuple, mesh type); lat-lon models get degrees"""
+    """positions for the general history probe: (pos tuple, mesh type); lat-lon models get degrees.
+    Point counts 1..7 include n == dim and n == dim +- 1"""
     if family == "latlon":
         lo, hi = [-80.0, -170.0, 0.0][:fdim], [80.0, 170.0, 20.0][:fdim]
     else:
@@ -1276,15 +1279,37 @@ def _hist_positions(rng, family, fdim, structured, stored=None):
         lo, hi = [off - 8.0] * fdim, [off + 8.0] * fdim
     if structured:
         return tuple(np.sort(rng.uniform(lo[d], hi[d], int(rng.integers(1, 5)))) for d in range(fdim)), "structured"
-    n = int(rng.integers(1, 8))
+    n = int(rng.choice([1, 2, fdim, fdim + 1, int(rng.integers(1, 8))]))
     return tuple(rng.uniform(lo[d], hi[d], n) for d in range(fdim)), "unstructured"
 
 
-def _hist_model(gs, rng, kind, family, nug):
+def _layout(rng, pos, mt):
+    """the same positions handed over in another container / memory layout (values identical)"""
+    if mt != "unstructured":
+        k = int(rng.integers(3))
+        return [tuple(pos), [list(p) for p in pos], tuple(np.array(p)[::-1][::-1] for p in pos)][k], ["tuple", "lists", "views"][k]
+    a = np.array(pos, dtype=float)
+    k = int(rng.integers(6))
+    if k == 0:
+        return tuple(np.array(p) for p in pos), "tuple"
+    if k == 1:
+        return a.copy(), "C-2d"
+    if k == 2:
+        return np.asfortranarray(a), "F-2d"
+    if k == 3:
+        big = np.zeros((a.shape[0], 2 * a.shape[1]))
+        big[:, ::2] = a
+        return big[:, ::2], "strided"
+    if k == 4:
+        return np.ascontiguousarray(a.T).T, "transposed"
+    return [list(p) for p in pos], "lists"
+
+
+def _hist_model(gs, rng, kind, family, nug, ppf_only=False):
     if family == "latlon":
         temporal = bool(rng.random() < 0.4)
         kw = dict(latlon=True, geo_scale=float(rng.choice([1.0, 57.3, 6371.0])), var=float(rng.choice(VAR)),
-                  len_scale=float(rng.choice([0.3, 1.0])) , nugget=nug)
+                  len_scale=float(rng.choice([0.3, 1.0])), nugget=nug)
         if temporal:
             kw.update(temporal=True, anis=[float(rng.choice([0.5, 2.0]))])
         return getattr(gs, str(rng.choice(CLS_PPF)))(**kw)
@@ -1293,18 +1318,31 @@ def _hist_model(gs, rng, kind, family, nug):
         return getattr(gs, str(rng.choice(CLS_PPF)))(temporal=True, spatial_dim=sd, var=float(rng.choice(VAR)), len_scale=float(rng.choice(LEN)),
                                                      nugget=nug, anis=[float(rng.choice(ANIS)) for _ in range(sd)])
     dim = int(rng.integers(2, 4)) if kind == "IncomprRandMeth" else int(rng.integers(1, 4))
-    cls = str(rng.choice(CLS_PPF)) if (kind == "Fourier" or rng.random() < 0.7) else str(rng.choice(CLS_MCMC))
+    cls = str(rng.choice(CLS_PPF)) if (ppf_only or kind == "Fourier" or rng.random() < 0.7) else str(rng.choice(CLS_MCMC))
     return build_model(gs, rand_spec(rng, dim, cls=cls, nugget=nug))
 
 
 def _hist_change(gs, rng, srf, kind, family, nug, trace):
-    """one in-place change of ONE attribute of the field's model (clearly different or identical values)"""
+    """one in-place change of ONE attribute of the field's model (clearly different or identical values).  List-valued
+    attributes are handed over as numpy arrays which the caller then edits in place: the model must keep the values it
+    was given.  Returns None or a description of an aliasing violation."""
     m = srf.model
     attrs = ["var", "nugget", "len_scale", "rescale", "anis"]
     if family == "plain":
         attrs += ["len_scale_list", "angles", "opt", "opt"]
     attr = str(rng.choice(attrs))
     k = int(rng.integers(0, 6))
+    alias = None
+
+    def assign_array(name, val):
+        arr = np.array(val, dtype=float)
+        setattr(m, name, arr)
+        before = np.array(getattr(m, "anis" if name == "len_scale" else name), dtype=float).copy()
+        arr *= 1.7                      # the caller goes on working with its array
+        arr += 0.3
+        after = np.array(getattr(m, "anis" if name == "len_scale" else name), dtype=float)
+        return None if np.array_equal(before, after) else "model.%s follows the caller's later in-place edits of the array it was given" % name
+
     if attr == "nugget":
         val = [0.4, 0.7, 0.2][k % 3] if nug else 0.0
         m.nugget = val
@@ -1314,14 +1352,20 @@ def _hist_change(gs, rng, srf, kind, family, nug, trace):
     elif attr == "len_scale_list" and m.dim > 1:
         val = [LEN[(k + i) % 3] for i in range(m.dim)]
         val[0] = max(val)                       # main axis longest: anisotropy ratios <= 1
-        m.len_scale = val
+        alias = assign_array("len_scale", val)
     elif attr == "anis" and family != "plain":
         if len(np.atleast_1d(m.anis)) == 0:
             m.var = VAR[k % 3]
             val = "var"
         else:
             val = [float([0.5, 2.0, 1.0][(k + i) % 3]) for i in range(len(np.atleast_1d(m.anis)))]
-            m.anis = val
+            alias = assign_array("anis", val)
+    elif attr == "anis" and m.dim > 1:
+        val = [ANIS[(k + i) % 3] for i in range(m.dim - 1)]
+        alias = assign_array("anis", val)
+    elif attr == "angles" and m.dim > 1:
+        val = [ANG[(k + i) % 3] for i in range(N_ANG[m.dim])]
+        alias = assign_array("angles", val)
     elif attr == "len_scale" and family == "latlon":
         val = [0.3, 1.0, 0.6][k % 3]
         m.len_scale = val
@@ -1329,93 +1373,169 @@ def _hist_change(gs, rng, srf, kind, family, nug, trace):
         val = k
         apply_mod(m, attr if attr != "len_scale_list" else "len_scale", k)
     trace.append(["mod", attr, val if not isinstance(val, np.ndarray) else val.tolist()])
+    return alias
 
 
-def gen_settings(srf, kind):
-    g = srf.generator
-    if kind == "Fourier":
-        return dict(period=[float(x) for x in g.period], mode_no=[int(x) for x in g.mode_no])
-    return dict(mode_no=int(g.mode_no), sampling=g.sampling)
+def interfere(gs, rng, trace=None):
+    """things that must NOT influence the object under test: numpy's global random state, other models with their own
+    hankel_kw / argument bounds / optional arguments, other generators and fields evaluated in between"""
+    k = int(rng.integers(6))
+    if k == 0:
+        np.random.seed(int(rng.integers(1 << 30)))
+        np.random.normal(size=3)
+        what = "np.random.seed + draws"
+    elif k == 1:
+        m = gs.Stable(dim=int(rng.integers(1, 4)), alpha=1.3, hankel_kw={"N": 150, "h": 0.002})
+        m.hankel_kw = {"N": int(rng.choice([100, 300])), "h": float(rng.choice([0.0005, 0.003])), "alt": False}
+        m.spectral_density(np.array([0.5, 1.0]))
+        what = "other model with custom hankel_kw"
+    elif k == 2:
+        m = gs.Matern(dim=2, nu=1.2)
+        m.set_arg_bounds(var=[0.0, 7.0], len_scale=[0.05, 70.0], nu=[0.3, 40.0])
+        m.nu = 3.3
+        m.len_scale = 60.0
+        m2 = gs.Gaussian(dim=3)
+        m2.set_arg_bounds(check_args=False, anis=[0.01, 5.0])
+        what = "other models with custom argument bounds"
+    elif k == 3:
+        kind = str(rng.choice(["RandMeth", "Fourier", "IncomprRandMeth"]))
+        m = gs.Exponential(dim=2, var=1.7, len_scale=3.0, nugget=0.2, anis=0.5, angles=0.4)
+        kw = dict(period=9.0, mode_no=4) if kind == "Fourier" else dict(mode_no=7)
+        o = gs.SRF(m, generator=kind, seed=int(rng.integers(1, 10 ** 6)), **kw)
+        o(rng.uniform(-5, 5, size=(2, 3)))
+        o.structured([np.linspace(0, 1, 2), np.linspace(0, 1, 3)])
+        what = "other %s SRF evaluated" % kind
+    elif k == 4:
+        m = gs.Rational(dim=2, alpha=2.0, hankel_kw={"N": 120})
+        g = gs.field.generator.RandMeth(m, mode_no=4, seed=11)
+        g(np.zeros((2, 1)))
+        np.random.rand(2)
+        what = "other MCMC-sampled generator + global draws"
+    else:
+        m = gs.TPLGaussian(dim=1, hurst=0.6, len_low=0.2)
+        m.hankel_kw = None
+        m.hankel_kw = {"a": -1, "b": 1, "N": 250}
+        gs.Gaussian(dim=2).hankel_kw = {"h": 0.01}
+        what = "hankel_kw reset / set on other models"
+    if trace is not None:
+        trace.append(["interfere", what])
 
 
 def probe_srf_history(ctx, gs, rng, reps):
     """GENERAL history probe (implementation only).  Random operation sequences on ONE SRF object:
-    srf(pos) / srf() and srf(seed=) on STORED positions / set_pos / mesh-type switches / in-place change of every model
-    attribute (var, nugget, len_scale scalar and list, anis incl. the time axis, angles, rescale, optional arguments) /
-    model replacement (incl. other geo_scale) / generator attributes (mode_no, sampling, period, seed setter, reset_seed).
+    srf(pos) / srf() and srf(seed=) on STORED positions / set_pos / mesh-type switches / positions in various containers
+    and memory layouts (tuple, lists, C / Fortran / strided / transposed 2-D arrays; n = 1, 2, dim, dim+1, ...) / in-place
+    change of every model attribute (var, nugget, len_scale scalar and list, anis incl. the time axis, angles, rescale,
+    optional arguments) / model replacement (incl. other geo_scale) / generator attributes (mode_no, sampling incl.
+    "inversion", period, seed setter, reset_seed) / the CALLER editing in place the arrays it handed over earlier
+    (positions, period, mode_no, anis, angles, len_scale) / INTERFERENCE by other objects and numpy's global random
+    state / replacing the object by its copy.deepcopy or pickle round trip while the original is used on.
     After EVERY call the result is compared with a SHADOW object: a fresh SRF(copy of the present model, present seed,
-    present generator settings), rebuilt whenever the present parameters differ from those of the last call (the real
-    generator must then have re-sampled and restarted its nugget stream) and otherwise called in lock step (so that with a
-    nugget the same sub-stream is due).  Same positions, same mesh type => bitwise equality, also for rotated models."""
+    generator settings AS GIVEN by the caller at the time), rebuilt whenever the present parameters differ from those of
+    the last call (the real generator must then have re-sampled and restarted its nugget stream) and otherwise called in
+    lock step (so that with a nugget the same sub-stream is due).  Same positions, same mesh type => bitwise equality."""
+    import pickle
     for rep in range(reps):
         kind = ["RandMeth", "Fourier", "IncomprRandMeth", "RandMeth"][rep % 4]
         nug = [0.0, 0.4][(rep // 4) % 2]
         family = "plain"
         if kind == "RandMeth" and rng.random() < 0.3:
             family = str(rng.choice(["latlon", "temporal"]))
-        model = _hist_model(gs, rng, kind, family, nug)
+        sampling0 = "auto"
+        if kind != "Fourier" and family == "plain" and rng.random() < 0.25:
+            sampling0 = "inversion"
+        model = _hist_model(gs, rng, kind, family, nug, ppf_only=(sampling0 == "inversion"))
         seed = int(rng.choice([7, 424242, 20170519]))
         fdim = model.field_dim
+        caller = []                    # arrays the caller handed over and still owns: [kind, array]
         if kind == "Fourier":
-            kw = dict(period=[float(rng.choice(PERIODS)) for _ in range(model.dim)], mode_no=[4] * model.dim)
+            sett = dict(period=[float(rng.choice(PERIODS)) for _ in range(model.dim)], mode_no=[int(rng.choice([2, 4])) for _ in range(model.dim)])
+            given = {}
+            for k_ in ("period", "mode_no"):
+                if rng.random() < 0.6:      # full-length arrays of the natural dtype, kept by the caller
+                    given[k_] = np.array(sett[k_], dtype=float if k_ == "period" or rng.random() < 0.5 else np.int64)
+                    caller.append([k_, given[k_]])
+                else:
+                    given[k_] = list(sett[k_])
         else:
-            kw = dict(mode_no=int(rng.choice([6, 12])))
-        srf = gs.SRF(model, generator=kind, seed=seed, **kw)
-        trace = [["init", kind, repr(model), kw, seed]]
+            sett = dict(mode_no=int(rng.choice([6, 12])), sampling=sampling0)
+            given = dict(sett)
+        items = list(given.items()) + [("seed", seed)]
+        order = rng.permutation(len(items))
+        srf = gs.SRF(model, generator=kind, **{items[i][0]: items[i][1] for i in order})     # keyword order must not matter
+        trace = [["init", kind, repr(model), {k_: (v.tolist() if isinstance(v, np.ndarray) else v) for k_, v in given.items()}, seed,
+                  [items[i][0] for i in order]]]
         shadow, last_key = None, None
-        stored = False
+        exp_pos, exp_mt = None, None
         n_calls = 0
+
+        def fail(what, extra=None, tag="history"):
+            ctx.violation("probe: SRF history vs fresh object with the present parameters (%s, %s, %s, nugget %s)" % (kind, family, exp_mt, nug), what,
+                          dict(dict(generator=kind, family=family, nugget=nug, trace=trace, present_model=repr(srf.model)), **(extra or {})),
+                          key="srf-history:%s:%s:%s" % (kind, "nugget" if nug else "nugget-free", tag))
+
         failed = False
-        for step in range(int(rng.integers(5, 12))):
+        for step in range(int(rng.integers(5, 13))):
             r = rng.random()
             call = None
-            if r < 0.22:
+            g = srf.generator
+            if r < 0.20:
                 pos, mt = _hist_positions(rng, family, fdim, bool(rng.random() < 0.4))
                 sd = None if rng.random() < 0.6 else int(rng.choice([7, 424242, 424243, 20170519]))
                 call = ("pos", pos, mt, sd)
-            elif r < 0.42 and stored:
+            elif r < 0.38 and exp_pos is not None:
                 sd = None if rng.random() < 0.5 else int(rng.choice([7, 424242, 424243, 20170519]))
                 call = ("stored", None, None, sd)
-            elif r < 0.50:
+            elif r < 0.45:
                 pos, mt = _hist_positions(rng, family, fdim, bool(rng.random() < 0.5))
-                srf.set_pos(pos, mt)
-                stored = True
-                trace.append(["set_pos", mt, [[C.fhex(x) for x in p] for p in pos]])
-            elif r < 0.78:
-                _hist_change(gs, rng, srf, kind, family, nug, trace)
-            elif r < 0.84:
-                m2 = _hist_model(gs, rng, kind, family, nug)
+                given_pos, lay = _layout(rng, pos, mt)
+                srf.set_pos(given_pos, mt)
+                exp_pos, exp_mt = tuple(np.array(p, dtype=float) for p in pos), mt
+                if isinstance(given_pos, np.ndarray) or isinstance(given_pos, tuple):
+                    caller.append(["pos", given_pos])
+                trace.append(["set_pos", mt, lay, [[C.fhex(x) for x in p] for p in pos]])
+            elif r < 0.66:
+                alias = _hist_change(gs, rng, srf, kind, family, nug, trace)
+                if alias:
+                    fail(alias, tag="alias")
+                    failed = True
+                    break
+            elif r < 0.71:
+                m2 = _hist_model(gs, rng, kind, family, nug, ppf_only=(kind != "Fourier" and g.sampling == "inversion"))
                 if m2.field_dim == fdim and (kind != "Fourier" or m2.dim == srf.model.dim):
                     srf.model = m2
                     trace.append(["setmodel", repr(m2)])
-            elif r < 0.92:
-                g = srf.generator
+            elif r < 0.78:
                 # a setter that changes a value re-samples at once (the Fourier grid setters always do): the streams
                 # restart even if a later setter restores the old value before the next call
                 if kind == "Fourier":
                     last_key = None
-                    if rng.random() < 0.5:
-                        p = [float(rng.choice(PERIODS)) for _ in range(srf.model.dim)]
-                        g.period = p
-                        trace.append(["period", p])
+                    which = "period" if rng.random() < 0.5 else "mode_no"
+                    val = [float(rng.choice(PERIODS)) for _ in range(srf.model.dim)] if which == "period" else [int(rng.choice([2, 4, 6])) for _ in range(srf.model.dim)]
+                    sett[which] = list(val)
+                    if rng.random() < 0.6:
+                        arr = np.array(val, dtype=float if which == "period" or rng.random() < 0.5 else np.int64)
+                        caller.append([which, arr])
+                        setattr(g, which, arr)
                     else:
-                        mn = [int(rng.choice([2, 4, 6])) for _ in range(srf.model.dim)]
-                        g.mode_no = mn
-                        trace.append(["mode_no", mn])
+                        setattr(g, which, list(val))
+                    trace.append([which, val])
                 elif rng.random() < 0.5:
                     n = int(rng.choice([6, 12, 20]))
                     if n != g.mode_no:
                         last_key = None
                     g.mode_no = n
+                    sett["mode_no"] = n
                     trace.append(["mode_no", n])
                 else:
-                    sm = str(rng.choice(["auto", "mcmc"]))
+                    opts = ["auto", "mcmc"] + (["inversion"] * 2 if (family == "plain" and srf.model.name in CLS_PPF) else [])
+                    sm = str(rng.choice(opts))
                     if sm != g.sampling:
                         last_key = None
                     g.sampling = sm
+                    sett["sampling"] = sm
                     trace.append(["sampling", sm])
-            else:
-                g = srf.generator
+            elif r < 0.84:
                 if rng.random() < 0.5:
                     sd = int(rng.choice([7, 424242, 424243]))
                     if sd != int(g.seed):
@@ -1426,50 +1546,129 @@ def probe_srf_history(ctx, gs, rng, reps):
                     g.reset_seed()
                     last_key = None         # an explicit reset restarts the streams whatever the parameters
                     trace.append(["gen.reset_seed"])
+            elif r < 0.90:
+                interfere(gs, rng, trace)
+            elif r < 0.95 and caller:
+                # the caller edits in place every array it handed over earlier
+                for what, arr0 in caller:
+                    for arr in (arr0 if isinstance(arr0, tuple) else (arr0,)):
+                        if not isinstance(arr, np.ndarray) or not arr.flags.writeable:
+                            continue
+                        if arr.dtype.kind == "f":
+                            arr *= 3.0
+                            arr += 1.0
+                        else:
+                            arr += 2
+                trace.append(["caller edits its arrays in place", [c[0] for c in caller]])
+                caller = []
+            else:
+                # go on with a copy of the object (deepcopy, or pickle round trip); the original is used on meanwhile
+                how_copy = "deepcopy" if rng.random() < 0.5 else "pickle"
+                try:
+                    new = copy.deepcopy(srf) if how_copy == "deepcopy" else pickle.loads(pickle.dumps(srf))
+                except Exception as e:      # noqa: BLE001
+                    fail("%s of the SRF object fails: %s: %s" % (how_copy, type(e).__name__, e), tag="copy")
+                    failed = True
+                    break
+                if exp_pos is not None:
+                    for _ in range(int(rng.integers(1, 3))):
+                        srf()                # the ORIGINAL draws (nugget) noise: must not touch the copy
+                srf.model.var = float(srf.model.var) * 1.5
+                srf = new
+                trace.append(["continue with %s of the object; original called and modified meanwhile" % how_copy])
             if call is None:
                 continue
+            g = srf.generator
             how, pos, mt, sd = call
-            eff_seed = int(srf.generator.seed) if sd is None else sd
+            eff_seed = int(g.seed) if sd is None else sd
+            # the generator's settings must still be the ones the caller GAVE (not views of arrays edited later)
+            if kind == "Fourier":
+                now = dict(period=[float(x) for x in g.period], mode_no=[int(x) for x in g.mode_no])
+                if now != dict(period=sett["period"], mode_no=sett["mode_no"]):
+                    fail("generator settings changed behind the API: given %r, generator now holds %r" % (sett, now), tag="alias")
+                    failed = True
+                    break
             key = (enc_model(srf.model, {}, "auto")[1:], repr(srf.model.name), bool(srf.model.latlon), float(srf.model.geo_scale),
-                   eff_seed, json.dumps(gen_settings(srf, kind), sort_keys=True))
+                   eff_seed, json.dumps(sett, sort_keys=True))
             if key != last_key:
-                shadow = gs.SRF(copy.deepcopy(srf.model), generator=kind, seed=eff_seed, **gen_settings(srf, kind))
+                shadow = gs.SRF(copy.deepcopy(srf.model), generator=kind, seed=eff_seed, **copy.deepcopy(sett))
                 last_key = key
             kws = {} if sd is None else dict(seed=sd)
             store = [True, "other", False][int(rng.integers(3))]
+            lay = "-"
             try:
                 if how == "pos":
-                    got = np.array(srf(pos, mesh_type=mt, store=store, **kws))
-                    stored = True
+                    given_pos, lay = _layout(rng, pos, mt)
+                    got = np.array(srf(given_pos, mesh_type=mt, store=store, **kws))
+                    exp_pos, exp_mt = tuple(np.array(p, dtype=float) for p in pos), mt
+                    if isinstance(given_pos, (np.ndarray, tuple)):
+                        caller.append(["pos", given_pos])
                 else:
                     got = np.array(srf(store=store, **kws))
-                cur_pos, cur_mt = tuple(np.array(p, dtype=float) for p in srf.pos), srf.mesh_type
-                want = np.array(shadow(cur_pos, mesh_type=cur_mt))
+                want = np.array(shadow(tuple(p.copy() for p in exp_pos), mesh_type=exp_mt))
             except Exception as e:      # noqa: BLE001
-                ctx.violation("probe: SRF history (%s)" % kind, "unexpected %s: %s" % (type(e).__name__, e),
-                              dict(generator=kind, family=family, trace=trace), key="srf-history:%s:exception" % kind)
+                fail("unexpected %s: %s" % (type(e).__name__, e), tag="exception")
                 failed = True
                 break
             n_calls += 1
-            trace.append(["call", how, cur_mt, None if sd is None else sd, [[C.fhex(x) for x in p] for p in cur_pos]])
-            pos_ok = how != "pos" or all(C.bit_equal(a, b) for a, b in zip(cur_pos, pos))
+            trace.append(["call", how, exp_mt, lay, None if sd is None else sd, [[C.fhex(x) for x in p] for p in exp_pos]])
+            pos_ok = len(srf.pos) == len(exp_pos) and srf.mesh_type == exp_mt and all(C.bit_equal(a_, b_) for a_, b_ in zip(srf.pos, exp_pos))
             if not (C.bit_equal(got, want) and pos_ok):
-                ctx.violation("probe: SRF history vs fresh object with the present parameters (%s, %s, %s, nugget %s)" % (kind, family, cur_mt, nug),
-                              "call %d (%s%s) of a history on one SRF object differs from a freshly built SRF(copy of the present model, seed %d, %s) "
-                              "on the same positions%s" % (n_calls, "srf(pos)" if how == "pos" else "srf() on stored positions",
-                                                           "" if sd is None else ", seed=%d" % sd, eff_seed, gen_settings(srf, kind),
-                                                           " (lock-step nugget sub-stream)" if nug else ""),
-                              dict(generator=kind, family=family, nugget=nug, trace=trace, present_model=repr(srf.model),
-                                   max_abs_diff=float(np.max(np.abs(got - want))) if got.shape == want.shape else None),
-                              key="srf-history:%s:%s" % (kind, "nugget" if nug else "nugget-free"))
+                fail("call %d (%s%s) of a history on one SRF object differs from a freshly built SRF(copy of the present model, seed %d, %s) "
+                     "on the same positions%s%s" % (n_calls, "srf(pos)" if how == "pos" else "srf() on stored positions",
+                                                    "" if sd is None else ", seed=%d" % sd, eff_seed, sett,
+                                                    " (lock-step nugget sub-stream)" if nug else "",
+                                                    "" if pos_ok else "; srf.pos is not the positions given last"),
+                     dict(max_abs_diff=float(np.max(np.abs(got - want))) if got.shape == want.shape else None))
                 failed = True
                 break
         ctx.count(("srf-history", kind, family, nug, n_calls) if n_calls else None, n=max(1, n_calls),
                   hist=dict(stage="probe:srf-history", generator=kind, family=family, nugget=nug))
         for t in trace[1:]:
             ctx.dist.setdefault("srf_history_op", {})
-            kk = t[0] + (":" + str(t[1]) if t[0] in ("mod", "call") else "")
+            kk = str(t[0]).split(" of the object")[0] + (":" + str(t[1]) if t[0] in ("mod", "call") else "")
             ctx.dist["srf_history_op"][kk] = ctx.dist["srf_history_op"].get(kk, 0) + 1
+
+
+def probe_interference(ctx, gs, rng, reps):
+    """a fresh model + fresh SRF built from the same specification and seed gives the same field whatever happened to
+    OTHER objects and to numpy's global random state in between: class x dim x generator x sampling cells"""
+    cells = []
+    for cls in CLS_PPF + CLS_MCMC:
+        for dim in (1, 2, 3):
+            for kind in ("RandMeth", "Fourier", "IncomprRandMeth"):
+                if kind == "IncomprRandMeth" and dim == 1:
+                    continue
+                samplings = ["auto"] if kind == "Fourier" else (["auto", "mcmc", "inversion"] if cls in CLS_PPF else ["auto"])
+                for smp in samplings:
+                    cells.append((cls, dim, kind, smp))
+    order = rng.permutation(len(cells))
+    for i in order[:reps]:
+        cls, dim, kind, smp = cells[int(i)]
+        sp = rand_spec(rng, dim, cls=cls, nugget=float(rng.choice([0.0, 0.3])))
+        seed = int(rng.choice([3, 99999, 20170519]))
+        kw = dict(period=[8.0] * dim, mode_no=[4] * dim) if kind == "Fourier" else dict(mode_no=8, sampling=smp)
+        pos = rand_pos(rng, dim, int(rng.choice([1, 2, dim, dim + 1, 5])), 6.0)
+
+        def build():
+            o = gs.SRF(build_model(gs, sp), generator=kind, seed=seed, **copy.deepcopy(kw))
+            return o, [np.array(o(pos)), np.array(o(pos))]      # two calls: modes and (with nugget) two noise sub-streams
+        _, ref = build()
+        notes = []
+        o_mid = gs.SRF(build_model(gs, sp), generator=kind, seed=seed, **copy.deepcopy(kw))
+        for _ in range(int(rng.integers(1, 4))):
+            interfere(gs, rng, notes)
+        mid = [np.array(o_mid(pos)), np.array(o_mid(pos))]        # built before, evaluated after the interference
+        _, after = build()                                        # built and evaluated after
+        ctx.count(("interference", cls, dim, kind, smp), hist=dict(stage="probe:interference", generator=kind, dim=dim, sampling=smp, cls=cls))
+        for name, res in (("constructed before / evaluated after", mid), ("constructed and evaluated after", after)):
+            if not all(C.bit_equal(a_, b_) for a_, b_ in zip(ref, res)):
+                ctx.violation("probe: interference by other objects / global state (%s, %s, dim %d, sampling %s)" % (kind, cls, dim, smp),
+                              "a fresh SRF (%s the interference) with the same specification and seed gives another field than before: %r" % (name, [n_[1] for n_ in notes]),
+                              dict(generator=kind, spec=sp, settings=kw, seed=seed, pos=[C.fhex(x) for x in pos.ravel()], interference=notes,
+                                   max_abs_diff=float(max(np.max(np.abs(a_ - b_)) for a_, b_ in zip(ref, res)))),
+                              key="interference:%s:%s:%s" % (kind, cls, smp))
+                break
 
 
 def probe_equal_histories(ctx, gs, rng, reps):
@@ -1545,7 +1744,7 @@ def run(ctx, only_plan=None):
                 "same object/distinct objects/numpy ints/None/NaN; in-place var, len_scale, nugget, anis, angles, optional-argument changes and "
                 "restorations; neighbouring large seeds s+1, s-1, s+7, s*(1+3e-6) and int / new object / np.int64 / np.int32 holders; model replacement incl. dimension change; mode_no/period/seed setters, reset_seed, update) compared step by step "
                 "with the extracted state machine, (b) locality probes (permutation, subset, single point, batching, store name, structured, "
-                "meshio incl. every kind of `direction` on 2-D/3-D meshes, points and centroids, returned and stored data), (c) successive calls on nearly-equal positions (UTM-like offsets, staggered grids, 1e-9 magnitudes) vs fresh, history-vs-fresh (incl. optional-argument-only changes), seed-change-vs-fresh (SRF call / seed setter / update routes) and equal-history probes, (d) general SRF histories (stored positions, set_pos, mesh-type switches, every model attribute incl. len_scale lists / rescale / time axis / lat-lon geo_scale, generator attributes incl. sampling) compared after every call with a lock-step shadow object built fresh from the present parameters, with and without nugget, (e) numeric ties.  Non-trivial = a history with >= 1 generator-level "
+                "meshio incl. every kind of `direction` on 2-D/3-D meshes, points and centroids, returned and stored data), (c) successive calls on nearly-equal positions (UTM-like offsets, staggered grids, 1e-9 magnitudes) vs fresh, history-vs-fresh (incl. optional-argument-only changes), seed-change-vs-fresh (SRF call / seed setter / update routes) and equal-history probes, (d) general SRF histories (stored positions, set_pos, mesh-type switches, every model attribute incl. len_scale lists / rescale / time axis / lat-lon geo_scale, generator attributes incl. sampling) compared after every call with a lock-step shadow object built fresh from the present parameters, with and without nugget, incl. position containers / memory layouts, caller-side in-place edits of arrays handed over earlier, interference by other objects and numpy's global random state, deepcopy / pickle copies, (e) fresh-vs-fresh across interference for class x dim x generator x sampling cells, (f) numeric ties.  Non-trivial = a history with >= 1 generator-level "
                 "operation or a probe with >= 2 points; distinct = distinct (stage, generator, dim, shape/length) keys")
     ctx.trusted = [
         "Coq 8.16.1 kernel (coqc); no native_compute",
@@ -1623,6 +1822,7 @@ def run(ctx, only_plan=None):
         probe_seed_change(ctx, gs, rng, 480 if thorough else 150)
         probe_positions(ctx, gs, rng, 600 if thorough else 150)
         probe_srf_history(ctx, gs, rng, 1200 if thorough else 300)
+        probe_interference(ctx, gs, rng, 400 if thorough else 120)
         probe_history_vs_fresh(ctx, gs, rng, 450 if thorough else 120)
         probe_equal_histories(ctx, gs, rng, 150 if thorough else 45)
         ctx.notes.append("history correspondence: %s" % json.dumps(STATS))
